@@ -11,9 +11,6 @@ open H2.Gen H2.Conn
 /-- "closed and quiet": the connection is CLOSED and its output buffer is `o` -/
 def CQ (o : Bytes) (c : Conn) : Prop := c.cstate = .CLOSED ∧ c.out = o
 
-macro "wps" : tactic => `(tactic| simp only [wp_bind, wp_pure, wp_Mpure, wp_raise, wp_getS, wp_modifyS, wp_ite,
-  wp_liftExcept, wp_tryCatch, wp_zoom])
-
 theorem wp_connInput_closed {Q : Unit → Conn → Prop} (o : Bytes) (i : ConnectionInputs) (c : Conn) (hc : CQ o c)
     (hi : connTable .CLOSED i = none) :
     wp (connInput i) Q (fun _ c' => CQ o c') c := by
